@@ -20,8 +20,13 @@ func (r *FragRule) RunPass(ctx *Context, pass Pass) {
 			Pos: r.Bounds().Begin,
 		}
 
+		// @emit and @discard end the processing of a rule's actions in the
+		// generated state machine (like the implicit accept of a token), so
+		// they go last no matter where they were written; otherwise a
+		// @push_mode or @pop_mode written after them would never run.
 		hasDiscard := false
 		hasEmit := false
+		var final mode.Action
 		for _, actAST := range r.Actions {
 			act := actAST.GetAction()
 			switch act.Type {
@@ -33,6 +38,8 @@ func (r *FragRule) RunPass(ctx *Context, pass Pass) {
 					return
 				}
 				hasDiscard = true
+				final = act
+				continue
 			case mode.ActionAccept:
 				if hasEmit {
 					ctx.Errs.Errorf(
@@ -41,15 +48,18 @@ func (r *FragRule) RunPass(ctx *Context, pass Pass) {
 					return
 				}
 				hasEmit = true
+				final = act
+				continue
 			}
 			actions.Actions = append(actions.Actions, act)
 		}
 
 		if !hasDiscard && !hasEmit {
-			actions.Actions = append(actions.Actions, mode.Action{
+			final = mode.Action{
 				Type: mode.ActionAccum,
-			})
+			}
 		}
+		actions.Actions = append(actions.Actions, final)
 
 		if hasDiscard && hasEmit {
 			ctx.Errs.Errorf(
